@@ -42,6 +42,7 @@ class Domain:
     """Default client: no effects, nothing infeasible."""
 
     implicit_raise = False  # True: every call may raise an unknown exception
+    cancel_at_await = False  # True: every await may raise CancelledError (a BaseException: not caught by `except Exception`)
 
     def event(self, node, v) -> Iterable:
         return (v,)
@@ -148,6 +149,9 @@ class Interp:
             return self._apply(e, st)
         if isinstance(e, ast.Await):
             st = self.ev(e.value, st)
+            if getattr(self.d, 'cancel_at_await', False):
+                # the task may be cancelled while it is suspended here (CancelledError is not an Exception)
+                self._raise('CancelledError', st)
             return self._apply(e, st)
         if isinstance(e, ast.NamedExpr):
             st = self.ev(e.value, st)
